@@ -12,7 +12,8 @@ from ..sched import run_schedule
 
 ID = "C15"
 LEVEL = "exploration"
-RULE = ("[two-preemption grids: for 8 ordered pairs built to share something (twin documents with the same coloured title / subline / "
+RULE = ("[line level in quick: one preemption at each of the ~1800 LINE events (inside color_service / registry / converter / text_conversion_service) of the small twin's encode] "
+        "[two-preemption grids: for 8 ordered pairs built to share something (twin documents with the same coloured title / subline / "
         "page header / footer / footnote but different palette indices, palettes, shared footnote object, conversions, group_by, wrapped headings) "
         "a 10 x 10 (thorough 40 x 40) grid of overlapping, non-nested schedules] "
         "Two and three threads encode documents from a pool of archetypes with different palettes and shapes "
@@ -130,13 +131,13 @@ ARCH = [
      "sections": [{"df": {"cols": [{"name": "@N0", "dtype": "str", "values": [f"k{i}" for i in range(9)]},
                                    {"name": "@N1", "dtype": "str", "values": [f"m{i}" for i in range(9)]}]},
                    "body": {"text_color": ["blue", "aquamarine"]}, "headers": [{"text": ["@H0.0", "@H0.1"]}]}],
-     "title": {"text": ["@T0 house style"], "text_color": "red"}, "subline": {"text": ["@U0 same"], "text_color": "orange"},
+     "title": {"text": ["@T0 house style \\alpha >= 5"], "text_color": "red"}, "subline": {"text": ["@U0 same"], "text_color": "orange"},
      "page_header": {"text": ["@P0 same"], "text_color": "red"}, "page_footer": {"text": ["@Q0 same"], "text_background_color": "yellow"},
      "footnote": {"text": ["@F0 same"], "as_table": False, "text_color": "purple"}},
     {"kind": "table", "page": {"nrow": 20},
      "sections": [{"df": {"cols": [{"name": "@N0", "dtype": "str", "values": ["z0", "z1"]}]}, "body": {"text_background_color": "wheat"},
                    "headers": [{"text": ["@H0.0"]}]}],
-     "title": {"text": ["@T0 house style"], "text_color": "red"}, "subline": {"text": ["@U0 same"], "text_color": "orange"},
+     "title": {"text": ["@T0 house style \\alpha >= 5"], "text_color": "red"}, "subline": {"text": ["@U0 same"], "text_color": "orange"},
      "page_header": {"text": ["@P0 same"], "text_color": "red"}, "page_footer": {"text": ["@Q0 same"], "text_background_color": "yellow"},
      "footnote": {"text": ["@F0 same"], "as_table": False, "text_color": "purple"}},
 ]
@@ -166,6 +167,38 @@ def call_count(i, lines=False):
     doc = fresh(i)
     _, cnt, _, _ = run_schedule([doc.rtf_encode], [], lines=lines)
     return cnt[0]
+
+
+@functools.lru_cache(None)
+def line_events(i):
+    """Indices (in the scheduler's event count with lines=True) of the LINE events of document i's encode: the call events
+    are covered by the call-level enumeration."""
+    import sys
+    from ..sched import LINE_FILES
+    doc = fresh(i)
+    n, out = [0], []
+
+    def local(frame, event, arg):
+        if event == "line":
+            n[0] += 1
+            out.append(n[0])
+        return local
+
+    def tr(frame, event, arg):
+        if event == "call":
+            fn = frame.f_code.co_filename
+            if "/rtflite/" in fn:
+                n[0] += 1
+                if fn.endswith(LINE_FILES):
+                    return local
+        return None
+
+    sys.settrace(tr)
+    try:
+        doc.rtf_encode()
+    finally:
+        sys.settrace(None)
+    return tuple(out)
 
 
 def build_docs(idx, share=None):
@@ -233,6 +266,10 @@ def enumerate_cases(tier):
                 if (a, b) in SHARED:
                     c["share"] = SHARED[(a, b)]
                 yield c
+    # the twins also at line level (inside the modules that hold shared state or shared helpers): one preemption at every line event
+    if tier == "quick":
+        for k in line_events(21):
+            yield {"docs": [21, 20], "preempt": [[0, k]], "lines": True}
     if tier == "thorough":
         for a, b in QUICK_PAIRS:
             for k in range(1, call_count(a, True) + 1):
